@@ -139,6 +139,16 @@ func fixedResultLen(fn *ssa.Function) (int64, bool) {
 	if fn == nil || len(fn.Blocks) != 1 {
 		return 0, false
 	}
+	// return []byte{a, b, c, d}: a literal of N explicit elements
+	if r, ok := fn.Blocks[0].Instrs[len(fn.Blocks[0].Instrs)-1].(*ssa.Return); ok && len(r.Results) == 1 {
+		if sl, ok := r.Results[0].(*ssa.Slice); ok && sl.Low == nil && sl.High == nil {
+			if al, ok := sl.X.(*ssa.Alloc); ok {
+				if at, ok := al.Type().(*types.Pointer).Elem().Underlying().(*types.Array); ok {
+					return at.Len(), true
+				}
+			}
+		}
+	}
 	n := int64(0)
 	for _, ins := range fn.Blocks[0].Instrs {
 		if c, ok := ins.(*ssa.Call); ok {
